@@ -39,7 +39,7 @@ TInit ==
 \* a new scanner over a (new) rule set: yr_scanner_create
 TRules ==
   /\ IsEv("Rules") /\ Step
-  /\ rs' = [rules |-> ev.rules, imports |-> ev.imports]
+  /\ rs' = [rules |-> ev.rules, imports |-> ev.imports, bomb |-> ("bomb" \in DOMAIN ev /\ ev.bomb)]
   /\ CleanAll(ev.rules)
 
 TScan ==
@@ -91,7 +91,7 @@ TRet ==
 
 Silent ==
   /\ UNCHANGED l
-  /\ \/ ScanBlock \/ BlockDone \/ ImportSkip \/ ExecRule \/ ExecEnd \/ ReportSkip \/ BlockTimeout \/ ExecTimeout
+  /\ \/ ScanBlock \/ BlockFails \/ BlockDone \/ ImportSkip \/ ExecRule \/ ExecEnd \/ ReportSkip \/ BlockTimeout \/ ExecTimeout
      \/ (cur.mode \notin {"blocks", "blocksnofs"} /\ (IterBlock \/ IterNull))
 
 TNext == TRules \/ TScan \/ TResume \/ TIter \/ TCb \/ TRet \/ Silent
